@@ -84,8 +84,10 @@ def run_case(spec, work):
     w1 = mapworld.derive_world(w, 'f1', ta_updates=ta1)
     j1, r1, err = _run(w1, trace=True)
     if j1 is None:
-        return {'violations': [], 'inconclusive': f'base raised {err}',
-                'counters': {}, 'features': None, 'nontrivial': False}
+        return {'violations': [{
+                    'sig': 'C07:mapping-raised-on-valid-input',
+                    'msg': f'base run (factor 1) raised: {err}'}],
+                'counters': {}, 'features': ['raised'], 'nontrivial': True}
     amb = set()
     vote_oracle.check_votes(w1, j1['results'], r1['trace'], {}, {},
                             check_outputs=False, ambiguous_out=amb,
@@ -138,8 +140,10 @@ def run_case(spec, work):
     # (c) gene column permutation, bitwise at the configured factor
     jb, _, err = _run(w)
     if jb is None:
-        return {'violations': viol, 'inconclusive': f'base raised {err}',
-                'counters': counters, 'features': None, 'nontrivial': False}
+        viol.append({'sig': 'C07:mapping-raised-on-valid-input',
+                     'msg': f'base run raised: {err}'})
+        return {'violations': viol, 'counters': counters,
+                'features': ['raised'], 'nontrivial': True}
     p = rng.permutation(len(w.query_genes))
     wp = mapworld.derive_world(
         w, 'perm', Xq=w.Xq[:, p],
@@ -171,11 +175,19 @@ def run_case(spec, work):
                 if g in markers or rng.random() < 0.5]
         extra_ref = []   # reference genes that are not markers stay optional
         n_new = int(rng.integers(1, 6))
+        many = bool(rng.random() < 0.4)
+        if many:
+            # more query genes than any index type sized for the
+            # reference gene list can hold
+            n_new = int(rng.integers(260, 420))
         newX = rng.uniform(0, 12, size=(n, n_new))
-        X2 = np.hstack([Xn[:, keep], newX])
-        g2 = [w.query_genes[i] for i in keep] + \
-            [f'brand_new_{j}' for j in range(n_new)]
+        X2 = np.hstack([newX, Xn[:, keep]])
+        g2 = [f'brand_new_{j}' for j in range(n_new)] + \
+            [w.query_genes[i] for i in keep]
         p2 = rng.permutation(len(g2))
+        if many and rng.random() < 0.5:
+            p2 = np.arange(len(g2))       # foreign genes first
+            counters['many_foreign_genes_first'] = 1
         wd = mapworld.derive_world(w, 'extra', Xq=X2[:, p2],
                                    query_genes=[g2[i] for i in p2],
                                    normalization='log2CPM')
